@@ -84,6 +84,21 @@ def lit_key_of_pyvalue(v):
     return ("?",)
 
 
+def _is_nan_bits(b: int) -> bool:
+    return (b & 0x7F800000) == 0x7F800000 and (b & 0x007FFFFF) != 0
+
+
+def tensor_finite(t: onnx.TensorProto) -> int:
+    """np.isfinite on every element (what _get_const_repr tests); non-float tensors are finite."""
+    try:
+        arr = numpy_helper.to_array(t)
+        if arr.dtype.kind == "f":
+            return int(bool(np.all(np.isfinite(arr.astype(np.float64)))))
+    except Exception:
+        pass
+    return 1
+
+
 class Lits:
     def __init__(self):
         self.tab: dict = {}
@@ -94,7 +109,13 @@ class Lits:
         if key[2] == () and key[1] == 1:
             key = ("empty", 1, ())
         if key not in self.tab:
-            self.tab[key] = f"#{len(self.tab)}"
+            # a leading '-' marks a text that starts with '-' (str() of a negative scalar, -0.0 and -inf included)
+            neg = False
+            if key[1] == 0 and key[0] == "i":
+                neg = key[2][0] < 0
+            elif key[1] == 0 and key[0] == "f":
+                neg = bool(key[2][0] >> 31) and not _is_nan_bits(key[2][0])
+            self.tab[key] = ("-" if neg else "") + f"#{len(self.tab)}"
         return self.tab[key]
 
     def of_py(self, v) -> str:
@@ -106,7 +127,7 @@ class Lits:
 
 
 def enc_tensor_attr(t: onnx.TensorProto, lits: Lits) -> list[str]:
-    return ["T", str(t.data_type), str(len(t.dims)), *[str(d) for d in t.dims], hx(lits.tok(lit_key_of_tensor(t)))]
+    return ["T", str(t.data_type), str(len(t.dims)), *[str(d) for d in t.dims], str(tensor_finite(t)), hx(lits.tok(lit_key_of_tensor(t)))]
 
 
 def enc_attr(a: onnx.AttributeProto, lits: Lits) -> list[str]:
@@ -137,7 +158,7 @@ def enc_graph(g: onnx.GraphProto, lits: Lits) -> list[str]:
         size = 1
         for d in t.dims:
             size *= d
-        out += [hx(t.name), str(size), str(t.data_type), str(len(t.dims)), *[str(d) for d in t.dims], hx(lits.tok(lit_key_of_tensor(t)))]
+        out += [hx(t.name), str(size), str(t.data_type), str(len(t.dims)), *[str(d) for d in t.dims], str(tensor_finite(t)), hx(lits.tok(lit_key_of_tensor(t)))]
     out.append(str(len(g.sparse_initializer)))
     out.append(str(len(g.node)))
     for n in g.node:
@@ -221,7 +242,11 @@ def _flatten_bin(e, lits):
         return "**", [_arg(left, lits), _arg(e.operand.right, lits)]
     if isinstance(e, ast.BinOp) and type(e.op) in _BIN:
         sym = _BIN[type(e.op)]
-        return sym, [_arg(e.left, lits), _arg(e.right, lits)]
+        left = _arg(e.left, lits)
+        if sym == "**" and left.startswith("-"):
+            # a negative literal as the base of ** can only have been printed in parentheses
+            left = "(" + left + ")"
+        return sym, [left, _arg(e.right, lits)]
     if isinstance(e, ast.Compare) and len(e.ops) == 1 and type(e.ops[0]) in _CMP:
         return _CMP[type(e.ops[0])], [_arg(e.left, lits), _arg(e.comparators[0], lits)]
     raise Unparsable(ast.dump(e))
@@ -329,6 +354,15 @@ def canon_program(src: str, lits: Lits) -> list[str]:
             attrs.append(a.arg)
         else:
             plain.append(a.arg)
+    # the decorator: `@script(<positional names>, <kw>=<name>)`
+    deco_args = []
+    for d in target.decorator_list:
+        if isinstance(d, ast.Call) and isinstance(d.func, ast.Name) and d.func.id == "script":
+            for a in d.args:
+                deco_args.append(a.id if isinstance(a, ast.Name) else "?" + ast.dump(a)[:40])
+            for k in d.keywords:
+                deco_args.append(f"{k.arg}=" + (k.value.id if isinstance(k.value, ast.Name) else "?" + ast.dump(k.value)[:40]))
+    out.append("deco " + ",".join(deco_args))
     out.append(f"sig {target.name}({','.join(plain)}|{','.join(attrs)})")
     _stmts(target.body, depth, lits, out)
     return out
